@@ -7,4 +7,4 @@ From IMB Require Import Lib.Bytes Struct.JobSem.
 Require Extraction.
 Require Import ExtrOcamlBasic.
 Extraction Language OCaml.
-Extraction "k1_model.ml" job_model job_model_niv mkWI.
+Extraction "k1_model.ml" job_model job_model_niv job_model_loose mkWI.
